@@ -384,6 +384,22 @@ func ringTable(i int, c tableCase) map[string]any {
 		}
 		return false
 	}
+	lookups := func(nodes []*implchord.LocalNode, keys []string) [][]any {
+		var lk [][]any
+		for _, n := range nodes {
+			from := r.Rank[n.ID()]
+			for ki, sk := range keys {
+				key, _ := strconv.ParseUint(sk, 10, 64)
+				v, err := n.FindSuccessor(key)
+				if err != nil {
+					lk = append(lk, []any{from, ki, -1, ring.ErrClass(err)})
+				} else {
+					lk = append(lk, []any{from, ki, r.Rank[v.ID()], "ok"})
+				}
+			}
+		}
+		return lk
+	}
 	for k, oi := range order {
 		n := r.Node(strconv.Itoa(oi))
 		byID.put(n)
@@ -394,7 +410,14 @@ func ringTable(i int, c tableCase) map[string]any {
 		} else {
 			via := nodes[rnd.Intn(len(nodes))]
 			if err := n.Join(via); err != nil {
-				return map[string]any{"err": "join: " + ring.ErrClass(err)}
+				// a join refused on a settled ring: report the lookups of the ring built so far, the refusal may be
+				// the consequence of a wrong lookup (the joiner's own id is among the keys asked)
+				members := []int{}
+				for _, m := range nodes {
+					members = append(members, r.Rank[m.ID()])
+				}
+				return map[string]any{"err": "join: " + ring.ErrClass(err), "joiner": oi, "members": members,
+					"stable": settle(), "lookups": lookups(nodes, append(append([]string{}, c.Keys...), c.IDs[oi]))}
 			}
 		}
 		nodes = append(nodes, n)
@@ -402,20 +425,7 @@ func ringTable(i int, c tableCase) map[string]any {
 	}
 	stable := settle()
 	out := map[string]any{"stable": stable}
-	var lk [][]any
-	for _, n := range nodes {
-		from := r.Rank[n.ID()]
-		for ki, sk := range c.Keys {
-			key, _ := strconv.ParseUint(sk, 10, 64)
-			v, err := n.FindSuccessor(key)
-			if err != nil {
-				lk = append(lk, []any{from, ki, -1, ring.ErrClass(err)})
-			} else {
-				lk = append(lk, []any{from, ki, r.Rank[v.ID()], "ok"})
-			}
-		}
-	}
-	out["lookups"] = lk
+	out["lookups"] = lookups(nodes, c.Keys)
 	out["state"] = r.Snapshot(true, false)
 	for _, n := range nodes {
 		go n.Leave()
